@@ -64,10 +64,11 @@ Definition allowed_shared : list (string * string) :=
    sites there are, and in which functions, does not matter to the property (a
    write to a buffer of the call's own is what the heap programs do everywhere), so
    adding, removing, renaming or moving such a site is not an alarm. *)
+(* the package directory of a site "pkg/file.go:func" *)
 Fixpoint file_of (s : string) : string :=
   match s with
   | EmptyString => EmptyString
-  | String c r => if Ascii.eqb c ":"%char then EmptyString else String c (file_of r)
+  | String c r => if Ascii.eqb c "/"%char then EmptyString else String c (file_of r)
   end.
 
 Definition classes_known (l : list (string * string * string * string)) : bool :=
@@ -77,7 +78,7 @@ Definition shared_files_of (l : list (string * string * string * string)) : list
   map (fun e => (file_of (fst (fst (fst e))), snd (fst (fst e))))
       (filter (fun e => String.eqb (snd e) "shared") l).
 
-Definition allowed_shared_files : list (string * string) := [("pcs/pcs.go", "append")].
+Definition allowed_shared_files : list (string * string) := [("pcs", "append")].
 
 (* group consecutive inventory entries by function *)
 Fixpoint group (l : list (string * string * string * string)) : list (string * list (string * string)) :=
